@@ -222,7 +222,9 @@ class C15(Prop):
                 '/-- `Spinner._PRESERVED_SIGNALS` -/\n'
                 'def preservedSignals : List String := [%s]\n\n'
                 'end TTV.Generated.C15\n' % ', '.join('"%s"' % n for n in names))
-        return {'TTV/Generated/C15.lean': text}
+        # tie 2 (translator): Spinner.run, its callbacks, _get_result, _clean, the signal helpers, not_reentrant, trap_unhandled_errors
+        from harness import pyspinner2lean
+        return {'TTV/Generated/C15.lean': text, 'TTV/Generated/SpinnerSkel.lean': pyspinner2lean.generate(repo)}
 
     # ----- implementation side
     def run_impl(self, inp):
